@@ -189,12 +189,12 @@ class GenericSystemRegistry(
             system = self._default_system_name
 
         # The cache is only done for check_nonmult=True and the current system.
-        if (
-            check_nonmult
-            and system == self._default_system_name
-            and input_units in self._base_units_cache
-        ):
-            return self._base_units_cache[input_units]
+        # An entry is only valid for the root units it was computed from: contexts
+        # that redefine units bring their own root-units cache.
+        if check_nonmult and system == self._default_system_name:
+            cached = self._base_units_cache.get(input_units)
+            if cached is not None and cached[0] is self._cache.root_units:
+                return cached[1]
 
         factor, units = self.get_root_units(input_units, check_nonmult)
 
@@ -220,7 +220,10 @@ class GenericSystemRegistry(
         base_factor = self.convert(factor, units, destination_units)
 
         if check_nonmult and system == self._default_system_name:
-            self._base_units_cache[input_units] = base_factor, destination_units
+            self._base_units_cache[input_units] = (
+                self._cache.root_units,
+                (base_factor, destination_units),
+            )
 
         return base_factor, destination_units
 
